@@ -78,6 +78,89 @@ pub fn find(args: &[String]) -> i32 {
   }
 }
 
+// ------------------------------------------------------------------------------------------
+// Bounded stand-in (labelled) for the part of C15 no contract reaches: the Position reported by
+// the REAL parser for a rejected document (convert_pest_error: index, range, line, column).
+
+const DOC_TOKENS: &[&str] = &["a", " = ", "b", "\"\u{e9}\u{e9}\"", " / ", "\n", "; c\u{20ac}\n", "[", "\u{1F600}", "1", "\r\n", " "];
+
+/// None when the reported position is consistent, Some(reason) otherwise.
+fn check_position(doc: &str) -> Option<String> {
+  let d = doc.to_string();
+  let r = catch(move || match cddl::pest_bridge::cddl_from_pest_str(&d) {
+    Ok(_) => None,
+    Err(cddl::parser::Error::PARSER { position, .. }) => Some(position),
+    Err(_) => None,
+  });
+  let pos = match r {
+    Err(p) => return Some(format!("parser panicked: {}", p)),
+    Ok(None) => return None,
+    Ok(Some(p)) => p,
+  };
+  let b = doc.as_bytes();
+  if pos.index > b.len() || !doc.is_char_boundary(pos.index) {
+    return Some(format!("index {} is not a character boundary inside the input (len {})", pos.index, b.len()));
+  }
+  let (s, e) = pos.range;
+  if s > e || e > b.len() || !boundary(b, s) || !boundary(b, e) {
+    return Some(format!("range {:?} is inverted, outside the input (len {}) or off a character boundary", pos.range, b.len()));
+  }
+  let before = &doc[..pos.index];
+  let line = 1 + before.matches('\n').count();
+  let col = 1 + before.rsplit('\n').next().unwrap_or("").chars().count();
+  if pos.line != line || pos.column != col {
+    return Some(format!("index {} is line {} column {}, reported line {} column {}", pos.index, line, col, pos.line, pos.column));
+  }
+  None
+}
+
+pub fn find_position(args: &[String]) -> i32 {
+  let n: usize = args.first().and_then(|s| s.parse().ok()).unwrap_or(4);
+  let mut tried = 0u64;
+  let mut idx: Vec<usize> = vec![];
+  loop {
+    let doc: String = idx.iter().map(|&i| DOC_TOKENS[i]).collect();
+    tried += 1;
+    if let Some(why) = check_position(&doc) {
+      println!("{{\"found\":true,\"tried\":{},\"witness\":{{\"doc\":{}}},\"real\":{}}}", tried, jstr(&doc), jstr(&why));
+      return 1;
+    }
+    let mut k = idx.len();
+    loop {
+      if k == 0 {
+        if idx.len() == n {
+          println!("{{\"found\":false,\"tried\":{}}}", tried);
+          return 0;
+        }
+        idx = vec![0; idx.len() + 1];
+        break;
+      }
+      k -= 1;
+      if idx[k] + 1 < DOC_TOKENS.len() {
+        idx[k] += 1;
+        for x in idx.iter_mut().skip(k + 1) {
+          *x = 0;
+        }
+        break;
+      }
+    }
+  }
+}
+
+pub fn replay_position(args: &[String]) -> i32 {
+  let w: serde_json::Value = serde_json::from_str(&args[0]).expect("witness json");
+  match check_position(w["doc"].as_str().unwrap()) {
+    Some(why) => {
+      println!("{{\"violates\":true,\"real\":{}}}", jstr(&why));
+      1
+    }
+    None => {
+      println!("{{\"violates\":false,\"real\":\"position consistent\"}}");
+      0
+    }
+  }
+}
+
 pub fn replay(args: &[String]) -> i32 {
   let w: serde_json::Value = serde_json::from_str(&args[0]).expect("witness json");
   let index = w["index"].as_u64().unwrap() as usize;
